@@ -448,7 +448,7 @@ func c1goatFiles(pkg string, files map[string]string) map[string]string {
 
 func c01run(r *report.Run) {
 	thorough := r.Tier == "thorough"
-	r.Rule("profiles: (1) 8 lvalue kinds x 13 assignment operators x {int, byte, float64, string} x block contexts x right-hand-side kinds; (2) 58 statement forms x 8 block contexts x inner contexts (nesting depth 2); (3) element types x container shapes x operations, named types, nil comparisons, constants, conversions; (4) the C09 call configurations; (5) every bundled math/strings/strconv/errors/fmt function x boundary argument pools; (6) multi-package layouts (exported const/var/func/type/method, aliases, packages split over files, chain, diamond, interfaces across packages); (7) 8 run-time fault kinds x 5 positions; (2) control-flow and scoping corpora of C06/C08 at <=3 nodes, slice histories of C11, struct programs of C12; every program compiled and run by the Go toolchain and by goatlang from identical source text; non-trivial = every program (all distinct)")
+	r.Rule("profiles: (1) 8 lvalue kinds x 13 assignment operators x {int, byte, float64, string} x block contexts x right-hand-side kinds; (2) 58 statement forms x 8 block contexts x inner contexts (nesting depth 2); (3) element types x container shapes x operations, named types, nil comparisons, constants, conversions; (4) the C09 call configurations; (5) every bundled math/strings/strconv/errors/fmt function x boundary argument pools; (6) multi-package layouts (exported const/var/func/type/method, aliases, packages split over files, chain, diamond, interfaces across packages); (7) 8 run-time fault kinds x 5 positions; (2) control-flow and scoping corpora of C06/C08 at <=3 nodes, slice histories of C11, struct programs of C12, wide-frame programs (statement groups behind 120..300 locals); every program compiled and run by the Go toolchain and by goatlang from identical source text; non-trivial = every program (all distinct)")
 	r.Assume("the supported subset is the grammar of DESIGN.md §4; int values are kept inside the int32 range so that Go's 64-bit int and goatlang's 32-bit int agree", "one Go toolchain (the installed one); printed multi-entry maps never occur in generated programs")
 	cache := oracle.OpenCache("c01")
 	defer cache.Save()
@@ -496,6 +496,7 @@ func c01run(r *report.Run) {
 	}
 	addCorpus(corpusC11(2, 2))
 	addCorpus(corpusC12(12))
+	addCorpus(corpusWide(cWideWidths(thorough)))
 	cfgs := c9configs(false)
 	for s := 0; s < len(cfgs); s += c9perPkg * 8 { // every 8th package of the C09 enumeration
 		e := s + c9perPkg
